@@ -46,6 +46,14 @@ FINITE_SLOW = {"species": ["A", "B"], "reactions": [
     "params": {"k0": 1e-9}, "ic": {"A": 3, "B": 0}}
 
 
+# an enzyme mechanism under the names its species usually carry (the complex's name contains its parts' names)
+FINITE_ENZYME = {"species": ["E", "S", "ES", "P"], "reactions": [
+    {"reactants": ["E", "S"], "products": ["ES"], "prop": {"type": "massaction", "k": "kf"}},
+    {"reactants": ["ES"], "products": ["E", "S"], "prop": {"type": "massaction", "k": "kr"}},
+    {"reactants": ["ES"], "products": ["E", "P"], "prop": {"type": "massaction", "k": "kcat"}}],
+    "params": {"kf": 1.0, "kr": 0.5, "kcat": 1.0}, "ic": {"E": 1, "S": 3, "ES": 0, "P": 0}}
+
+
 def corr_network(ctx, spec, T, seeds, safe=False):
     ctx.begin_case({"spec": spec, "grid": [float(t) for t in T], "seeds": seeds, "safe": safe})
     M = build_model(spec)
@@ -93,9 +101,10 @@ def cme_test(ctx, spec, times, nruns, seed0, offset=False, sim_kind="ssa", strid
     if strided:
         T = np.repeat(T, 2)[::2]        # the same times as a non-contiguous view of a longer buffer
     sim = SSASimulator()
-    if sim_kind == "safevolume":
+    if sim_kind in ("safevolume", "safessa"):
         # the safe interface computes the same rates for mass action at non-negative counts (its guard only zeroes what is zero)
         Isafe = SafeModelCSimInterface(M)
+        Isafe.py_set_dt(float(T[1] - T[0]))
     if sim_kind in ("volume", "safevolume"):
         # the volume-aware simulator at constant volume 1 samples the same master equation; its volume ticks (every dt = 1)
         # are coarser than the requested grid, so one step can pass several requested times
@@ -110,7 +119,7 @@ def cme_test(ctx, spec, times, nruns, seed0, offset=False, sim_kind="ssa", strid
             v = Volume(); v.py_set_volume(1.0)
             res = sim.py_volume_simulate(Isafe if sim_kind == "safevolume" else I, v, T)
         else:
-            res = sim.py_simulate(I, T)
+            res = sim.py_simulate(Isafe if sim_kind == "safessa" else I, T)
         samples.append(tuple(map(tuple, np.array(res.py_get_result())[(0 if offset else 1):].astype(int))))
     ctx.evaluated(nruns)
     P = [cme.transient(Q, t) for t in times]
@@ -162,6 +171,8 @@ def run(ctx):
     cme_test(ctx, FINITE_SLOW, [2e8, 1e9, 2e9], nruns, 1000 * ctx.seed + 222)
     cme_test(ctx, FINITE_DELAYED, [0.3, 1.0, 2.5], nruns, 1000 * ctx.seed + 333)
     cme_test(ctx, FINITE_DELAYED, [0.3, 1.0, 2.5], nruns, 1000 * ctx.seed + 444, sim_kind="volume", strided=True)
+    cme_test(ctx, FINITE_ENZYME, [0.5, 2.0, 4.0], nruns, 1000 * ctx.seed + 888, sim_kind="safessa")
+    cme_test(ctx, FINITE_ENZYME, [0.5, 2.0, 4.0], nruns, 1000 * ctx.seed + 999, sim_kind="safevolume")
 
 
 def replay(ctx, obj):
